@@ -1,5 +1,6 @@
 //! unit: u09d
-//! properties: C09
+//! properties: C09 C01 C03 C05
+//! note: also run for C01, C03, C05: the code it constrains lies inside mechanisms those properties name (a change made there for their sake must meet these clauses too)
 //! note: (F9) monitor_updating_restored releases a held channel_ready at completion for any channel, without an assertion about who funded it. (F8) channel_reestablish never releases a channel_ready that is being held behind a monitor update (finding F8, written on the repaired shape): (1) while the channel still awaits channel_ready and either ours is not due or a monitor update is in progress, the answer to a reestablish carries no channel_ready; (2) with both sides on their first commitment the channel_ready is retransmitted only if it is not the one being held (monitor_pending_channel_ready): that one is released by monitor_updating_restored when the update completes, and is still held afterwards
 //! trusted: R15 (deep slices): the test in front of the early answer of the AwaitingChannelReady branch, and the statement computing `channel_ready` further down with its condition captured; env: FundedChannel / ChannelContext field skeletons, ChannelState a three-flag skeleton with the macro-generated accessors' meaning, get_channel_ready answers anything and leaves the held flag alone
 //! trusted: assume_specification for core::cmp::max / core::cmp::min (std definitions): present in every unit so that a change that introduces them is verified instead of being rejected by the tool
